@@ -110,6 +110,18 @@ pub struct SavedVmState {
     pub new_target: JsValue,
     /// Trampoline call stack (for nested function calls)
     pub trampoline_stack: Vec<SavedTrampolineFrame>,
+    /// `this` of the running frame (None: the caller of from_saved_state supplies it)
+    pub this_value: Option<JsValue>,
+    /// Exception being handled by a catch block
+    pub exception_value: Option<JsValue>,
+    /// Environments saved by the block scopes that are open
+    pub saved_env_stack: Vec<Gc<JsObject>>,
+    /// Constructor being executed (for super calls)
+    pub current_constructor: Option<Gc<JsObject>>,
+    /// Completion waiting for a finally block to end
+    pub pending_completion: Option<SavedCompletion>,
+    /// The interpreter's current environment (innermost scope of the running frame)
+    pub interp_env: Option<Gc<JsObject>>,
 }
 
 /// A call frame in the VM
@@ -166,6 +178,81 @@ pub enum PendingCompletion {
     },
 }
 
+/// A pending completion without its guards (kept alive by `SavedVmState.guard`)
+#[derive(Clone)]
+pub enum SavedCompletion {
+    Return(JsValue),
+    Throw(JsValue),
+    Break {
+        target: usize,
+        try_depth: u8,
+        scope_depth: u8,
+    },
+    Continue {
+        target: usize,
+        try_depth: u8,
+        scope_depth: u8,
+    },
+}
+
+impl SavedCompletion {
+    fn save(c: &PendingCompletion, guard: &Guard<JsObject>) -> Self {
+        let keep = |v: &JsValue| {
+            if let JsValue::Object(obj) = v {
+                guard.guard(obj.cheap_clone());
+            }
+            v.clone()
+        };
+        match c {
+            PendingCompletion::Return(g) => SavedCompletion::Return(keep(&g.value)),
+            PendingCompletion::Throw(g) => SavedCompletion::Throw(keep(&g.value)),
+            PendingCompletion::Break {
+                target,
+                try_depth,
+                scope_depth,
+            } => SavedCompletion::Break {
+                target: *target,
+                try_depth: *try_depth,
+                scope_depth: *scope_depth,
+            },
+            PendingCompletion::Continue {
+                target,
+                try_depth,
+                scope_depth,
+            } => SavedCompletion::Continue {
+                target: *target,
+                try_depth: *try_depth,
+                scope_depth: *scope_depth,
+            },
+        }
+    }
+
+    fn restore(self, heap: &crate::gc::Heap<JsObject>) -> PendingCompletion {
+        match self {
+            SavedCompletion::Return(v) => PendingCompletion::Return(Guarded::from_value(v, heap)),
+            SavedCompletion::Throw(v) => PendingCompletion::Throw(Guarded::from_value(v, heap)),
+            SavedCompletion::Break {
+                target,
+                try_depth,
+                scope_depth,
+            } => PendingCompletion::Break {
+                target,
+                try_depth,
+                scope_depth,
+            },
+            SavedCompletion::Continue {
+                target,
+                try_depth,
+                scope_depth,
+            } => PendingCompletion::Continue {
+                target,
+                try_depth,
+                scope_depth,
+            },
+        }
+    }
+}
+
 /// A saved trampoline frame for suspension (Clone-able version without Guard)
 /// The SavedVmState.guard keeps all objects alive during suspension
 #[derive(Clone)]
@@ -198,6 +285,10 @@ pub struct SavedTrampolineFrame {
     pub construct_new_obj: Option<Gc<JsObject>>,
     /// For async function calls: wrap result in a Promise when returning
     pub is_async: bool,
+    /// Exception being handled by the frame's catch block
+    pub exception_value: Option<JsValue>,
+    /// Completion waiting for the frame's finally block to end
+    pub pending_completion: Option<SavedCompletion>,
 }
 
 /// A saved VM frame for the trampoline call stack
@@ -1889,9 +1980,28 @@ impl BytecodeVM {
                     saved_interp_env: frame.saved_interp_env.cheap_clone(),
                     construct_new_obj: frame.construct_new_obj.clone(),
                     is_async: frame.is_async,
+                    exception_value: frame.exception_value.as_ref().map(|g| {
+                        if let JsValue::Object(obj) = &g.value {
+                            guard.guard(obj.cheap_clone());
+                        }
+                        g.value.clone()
+                    }),
+                    pending_completion: frame
+                        .pending_completion
+                        .as_ref()
+                        .map(|c| SavedCompletion::save(c, &guard)),
                 }
             })
             .collect();
+
+        if let Some(ref ctor) = self.current_constructor {
+            guard.guard(ctor.cheap_clone());
+        }
+        guard.guard(interp.env.cheap_clone());
+        let pending_completion = self
+            .pending_completion
+            .as_ref()
+            .map(|c| SavedCompletion::save(c, &guard));
 
         SavedVmState {
             frames: self.call_stack.clone(),
@@ -1899,10 +2009,16 @@ impl BytecodeVM {
             chunk: self.chunk.clone(),
             registers: self.registers.clone(),
             try_stack: self.try_stack.clone(),
-            guard: Some(guard),
             arguments: self.arguments.clone(),
             new_target: self.new_target.clone(),
             trampoline_stack: saved_trampoline_stack,
+            this_value: Some(self.this_value.clone()),
+            exception_value: self.exception_value.as_ref().map(|g| g.value.clone()),
+            saved_env_stack: self.saved_env_stack.clone(),
+            current_constructor: self.current_constructor.clone(),
+            pending_completion,
+            interp_env: Some(interp.env.cheap_clone()),
+            guard: Some(guard),
         }
     }
 
@@ -1971,12 +2087,14 @@ impl BytecodeVM {
                     this_value: saved.this_value,
                     vm_call_stack: saved.vm_call_stack,
                     try_stack: saved.try_stack,
-                    exception_value: None, // Lost during save, but we handle exceptions differently on resume
+                    exception_value: saved
+                        .exception_value
+                        .map(|v| Guarded::from_value(v, heap)),
                     saved_env_stack: saved.saved_env_stack,
                     arguments: saved.arguments,
                     new_target: saved.new_target,
                     current_constructor: saved.current_constructor,
-                    pending_completion: None, // Lost during save
+                    pending_completion: saved.pending_completion.map(|c| c.restore(heap)),
                     return_register: saved.return_register,
                     saved_interp_env: saved.saved_interp_env,
                     register_guard: frame_guard,
@@ -1986,6 +2104,17 @@ impl BytecodeVM {
             })
             .collect();
 
+        let this_value = state.this_value.unwrap_or(this_value);
+        if let JsValue::Object(obj) = &this_value {
+            guard.guard(obj.cheap_clone());
+        }
+        for env in &state.saved_env_stack {
+            guard.guard(env.cheap_clone());
+        }
+        if let Some(ref ctor) = state.current_constructor {
+            guard.guard(ctor.cheap_clone());
+        }
+
         Self {
             ip: state.ip,
             chunk: state.chunk,
@@ -1994,12 +2123,14 @@ impl BytecodeVM {
             call_stack: state.frames,
             try_stack: state.try_stack,
             this_value,
-            exception_value: None,
-            saved_env_stack: Vec::new(),
+            exception_value: state
+                .exception_value
+                .map(|v| Guarded::from_value(v, heap)),
+            saved_env_stack: state.saved_env_stack,
             arguments: state.arguments,
             new_target: state.new_target,
-            current_constructor: None,
-            pending_completion: None,
+            current_constructor: state.current_constructor,
+            pending_completion: state.pending_completion.map(|c| c.restore(heap)),
             trampoline_stack,
             register_pool: Vec::new(),
             arguments_pool: Vec::new(),
